@@ -1,6 +1,7 @@
 package main
 
 import (
+	"github.com/superfly/litefs/consul"
 	"context"
 	"errors"
 	"fmt"
@@ -35,6 +36,7 @@ type leaseSvc struct {
 	renewErr  bool     // renewals fail with a transient error
 	failNext  int      // the next n renewals fail (then succeed again)
 	ttlLong   bool     // leases granted from now on have a TTL of an hour (no periodic renewal within a case)
+	ttlMid    bool     // leases granted from now on have a TTL of 2.5 s (longer than the renewal time-out + retry interval)
 	cidArmed  bool     // fault: once the next Acquire has succeeded, cluster-id lookups fail
 	cidErr    bool     // ... the fault is active
 	log       []string // acquire / release events (for C08 oracles)
@@ -45,6 +47,7 @@ func newLeaseSvc() *leaseSvc { return &leaseSvc{holder: -1, allow: -1} }
 func (s *leaseSvc) event(f string, a ...interface{}) { s.log = append(s.log, fmt.Sprintf(f, a...)) }
 
 type nodeLeaser struct {
+	inner *consul.Leaser // consul mode: the real Consul leaser against the fake Consul server (same scripted state)
 	svc   *leaseSvc
 	idx   int
 	host  string
@@ -62,6 +65,9 @@ func (l *nodeLeaser) Acquire(ctx context.Context) (litefs.Lease, error) {
 	if l.dead.Load() {
 		return nil, errNetDown
 	}
+	if l.inner != nil {
+		return l.inner.Acquire(ctx)
+	}
 	s := l.svc
 	s.mu.Lock()
 	defer s.mu.Unlock()
@@ -75,10 +81,13 @@ func (l *nodeLeaser) Acquire(ctx context.Context) (litefs.Lease, error) {
 	if s.cidArmed {
 		s.cidArmed, s.cidErr = false, true
 	}
-	return &simLease{svc: s, idx: l.idx, id: s.leaseID, renewedAt: time.Now(), handoffCh: make(chan uint64, 1), long: s.ttlLong}, nil
+	return &simLease{svc: s, idx: l.idx, id: s.leaseID, renewedAt: time.Now(), handoffCh: make(chan uint64, 1), long: s.ttlLong, mid: s.ttlMid}, nil
 }
 
 func (l *nodeLeaser) AcquireExisting(ctx context.Context, leaseID string) (litefs.Lease, error) {
+	if l.inner != nil {
+		return l.inner.AcquireExisting(ctx, leaseID)
+	}
 	s := l.svc
 	s.mu.Lock()
 	defer s.mu.Unlock()
@@ -96,6 +105,9 @@ func (l *nodeLeaser) PrimaryInfo(ctx context.Context) (litefs.PrimaryInfo, error
 	if l.dead.Load() {
 		return litefs.PrimaryInfo{}, errNetDown
 	}
+	if l.inner != nil {
+		return l.inner.PrimaryInfo(ctx)
+	}
 	s := l.svc
 	s.mu.Lock()
 	defer s.mu.Unlock()
@@ -107,6 +119,9 @@ func (l *nodeLeaser) PrimaryInfo(ctx context.Context) (litefs.PrimaryInfo, error
 
 func (l *nodeLeaser) ClusterID(ctx context.Context) (string, error) {
 	l.ticks.Add(1)
+	if l.inner != nil {
+		return l.inner.ClusterID(ctx)
+	}
 	l.svc.mu.Lock()
 	defer l.svc.mu.Unlock()
 	if l.svc.cidErr {
@@ -116,6 +131,9 @@ func (l *nodeLeaser) ClusterID(ctx context.Context) (string, error) {
 }
 
 func (l *nodeLeaser) SetClusterID(ctx context.Context, id string) error {
+	if l.inner != nil {
+		return l.inner.SetClusterID(ctx, id)
+	}
 	l.svc.mu.Lock()
 	defer l.svc.mu.Unlock()
 	l.svc.clusterID = id
@@ -123,6 +141,7 @@ func (l *nodeLeaser) SetClusterID(ctx context.Context, id string) error {
 }
 
 type simLease struct {
+	mid       bool
 	svc       *leaseSvc
 	idx       int
 	id        int
@@ -141,6 +160,9 @@ func (l *simLease) RenewedAt() time.Time {
 func (l *simLease) TTL() time.Duration {
 	if l.long {
 		return time.Hour
+	}
+	if l.mid {
+		return 2500 * time.Millisecond
 	}
 	return 200 * time.Millisecond
 }
@@ -312,6 +334,7 @@ type clusterNode struct {
 }
 
 type clusterImpl struct {
+	consul *fakeConsul
 	genIDs []string
 	c      *Ctx
 	svc    *leaseSvc
@@ -329,6 +352,10 @@ func (m *clusterImpl) Close() {
 		n.eng.Close()
 	}
 	m.nodes = nil
+	if m.consul != nil {
+		m.consul.Close()
+		m.consul = nil
+	}
 }
 
 func (m *clusterImpl) stop(n *clusterNode) {
@@ -372,6 +399,22 @@ func (m *clusterImpl) start(k int) string {
 		}
 		n.srv = srv
 		n.leaser.url = srv.URL()
+		if m.consul != nil {
+			// the real Consul leaser, talking to the fake Consul server
+			in := consul.NewLeaser(m.consul.URL(k), consulKey, n.leaser.host, n.leaser.url)
+			in.TTL = 200 * time.Millisecond
+			m.svc.mu.Lock()
+			if m.svc.ttlLong {
+				in.TTL = time.Hour
+			} else if m.svc.ttlMid {
+				in.TTL = 2500 * time.Millisecond
+			}
+			m.svc.mu.Unlock()
+			if err := in.Open(); err != nil {
+				return err
+			}
+			n.leaser.inner = in
+		}
 		st.Leaser = n.leaser
 		st.Client = n.client
 		st.ReconnectDelay = 3 * time.Millisecond
@@ -496,6 +539,15 @@ func (m *clusterImpl) Do(line string) string {
 			return "bad-op"
 		}
 		m.svc = newLeaseSvc()
+		for _, a := range f[2:] {
+			if a == "consul" { // the nodes use consul.Leaser against a fake Consul server
+				fc, err := newFakeConsul(m.svc)
+				if err != nil {
+					return "err"
+				}
+				m.consul = fc
+			}
+		}
 		for i := 0; i < k; i++ {
 			n := &clusterNode{cand: true}
 			n.eng.c = m.c
@@ -891,7 +943,20 @@ func (m *clusterImpl) Do(line string) string {
 		}
 		m.svc.mu.Lock()
 		m.svc.ttlLong = f[1] == "long"
+		m.svc.ttlMid = f[1] == "mid"
 		m.svc.mu.Unlock()
+		for _, n := range m.nodes {
+			if n.leaser != nil && n.leaser.inner != nil {
+				switch f[1] {
+				case "long":
+					n.leaser.inner.TTL = time.Hour
+				case "mid":
+					n.leaser.inner.TTL = 2500 * time.Millisecond
+				default:
+					n.leaser.inner.TTL = 200 * time.Millisecond
+				}
+			}
+		}
 		return "ok"
 	case "renewfail-next":
 		if len(f) != 2 {
@@ -915,7 +980,7 @@ func (m *clusterImpl) Do(line string) string {
 		m.svc.mu.Unlock()
 		if f[1] == "on" && holder >= 0 && m.nodes[holder].up {
 			// renewals now fail: the primary gives up once a full TTL has passed without one
-			for i := 0; i < 3000 && m.nodes[holder].eng.store.IsPrimary(); i++ {
+			for i := 0; i < 5000 && m.nodes[holder].eng.store.IsPrimary(); i++ {
 				time.Sleep(time.Millisecond)
 			}
 		}
